@@ -70,14 +70,47 @@ def graphs(scratch):
     t = sc.tag_by_order_gfa(g, scratch)
     if t is not None:
         out.append(("pipeline", t, alphabet(t, c1, c2, False)))
-    m = sc.tag_by_model(g, [c1, c2], True)
+    # same node ids, different tags (chr2 numbered before chr1, BO starting at 7): a result must not depend on
+    # which graph an earlier sort call in the same process used
+    m = sc.tag_by_model(g, [c2, c1], True, bo_start=7)
     out.append(("hand-tagged", m, alphabet(m, c1, c2, True)))
     return out, t is None
 
 
+LARGE = {"quick": 70_001, "thorough": 300_001}
+
+
 def plan(tier, seed):
     n = NSHARD[tier]
-    return [{"shard": i, "of": n} for i in range(n)]
+    return [{"large": LARGE[tier]}] + [{"shard": i, "of": n} for i in range(n)]
+
+
+def large_file(res, scratch, tier, nrec):
+    """one deliberately large input (beyond 2^16 records) cycling through the alphabet, untagged records throughout"""
+    gs, missing = graphs(scratch)
+    gname, g, alpha = gs[-1]
+    gfa_path = os.path.join(scratch, gname + ".gfa")
+    fw.write_text(gfa_path, g.text())
+    recs = []
+    for pos in range(nrec):
+        name, path, ps, pe = alpha[(pos * 7 + pos // len(alpha)) % len(alpha)]
+        recs.append(sc.rec_on(g, f"{name}.{pos}", path, ps, pe))
+    gaf = os.path.join(scratch, "large.gaf")
+    fw.write_text(gaf, "".join(r.line() + "\n" for r in recs))
+    out = sc.run_sort(scratch, gfa_path, gaf)
+    res.evaluations += 1
+    res.count("large_file_records", nrec)
+    keys = [sc.sort_key(g, r) for r in recs]
+    want = [recs[i].qname for i in sorted(range(len(recs)), key=lambda i: (sc.order_tuple(keys[i]), i))]
+    res.nt(fw.h64(["large", nrec]))
+    case = {"graph": gname, "gfa": g.text(), "large": nrec}
+    if out.kind != "ok":
+        res.fail(f"C08/sort-failed:{out.sig()}", f"sort failed on a file of {nrec} records: {out.brief()}", case)
+        return
+    got = [l.split("\t")[0] for l in (out.stdout or "").split("\n") if l]
+    if got != want:
+        k = next((i for i, (a, b) in enumerate(zip(got, want)) if a != b), min(len(got), len(want)))
+        res.fail("C08/wrong-order-large-file", f"file of {nrec} records: output differs from the stable sort by (BO,NO,start) from position {k}: {got[k:k+3]} vs {want[k:k+3]}", case)
 
 
 def judge_file(res, scratch, gname, g, gfa_path, seq, alpha):
@@ -96,7 +129,14 @@ def judge_file(res, scratch, gname, g, gfa_path, seq, alpha):
     if len(recs) >= 2 and (want != list(range(len(recs))) or len({sc.order_tuple(k) for k in keys}) < len(keys)):
         res.nt(fw.h64([gname, seq]))
     case = {"graph": gname, "gfa": g.text(), "records": [r.line() for r in recs]}
+    if HISTORY.get("prev") and HISTORY["prev"]["gfa"] != case["gfa"]:
+        case["preceded_by"] = HISTORY["prev"]
     verdict(res, out, gname, recs, keys, want_names, case)
+    if HISTORY.get("prev") is None or HISTORY["prev"]["gfa"] == case["gfa"] or True:
+        pass
+
+
+HISTORY = {"prev": None}
 
 
 def verdict(res, out, gname, recs, keys, want_names, case):
@@ -115,6 +155,9 @@ def verdict(res, out, gname, recs, keys, want_names, case):
 
 def run_shard(spec, tier, scratch):
     res = fw.ShardResult()
+    if "large" in spec:
+        large_file(res, scratch, tier, spec["large"])
+        return res
     gs, missing = graphs(scratch)
     if missing:
         res.count("pipeline_graph_unavailable")
@@ -129,6 +172,9 @@ def run_shard(spec, tier, scratch):
                 if n % spec["of"] != spec["shard"]:
                     continue
                 judge_file(res, scratch, gname, g, gfa_path, list(seq), alpha)
+        # what the next graph's sort calls are preceded by in this process
+        name0, path0, ps0, pe0 = alpha[0]
+        HISTORY["prev"] = {"gfa": g.text(), "records": [sc.rec_on(g, f"{a[0]}.0", a[1], a[2], a[3]).line() for a in alpha]}
         if spec["shard"] == 0:
             res.sample({"graph": gname, "alphabet": [{"name": a[0], "path": a[1], "start": a[2], "end": a[3], "key": sc.sort_key(g, sc.rec_on(g, a[0], a[1], a[2], a[3]))} for a in alpha]})
     return res
@@ -136,6 +182,15 @@ def run_shard(spec, tier, scratch):
 
 def replay(case, scratch):
     res = fw.ShardResult()
+    if "large" in case:
+        large_file(res, scratch, "quick", case["large"])
+        return res.failures
+    if case.get("preceded_by"):
+        # a sort call on the other graph first: the failure needs that history
+        p = case["preceded_by"]
+        fw.write_text(os.path.join(scratch, "p.gfa"), p["gfa"])
+        fw.write_text(os.path.join(scratch, "p.gaf"), "".join(l + "\n" for l in p["records"]))
+        sc.run_sort(scratch, os.path.join(scratch, "p.gfa"), os.path.join(scratch, "p.gaf"))
     g = rgfa.Graph.parse(case["gfa"])
     gfa_path = os.path.join(scratch, "g.gfa")
     fw.write_text(gfa_path, case["gfa"])
